@@ -17,7 +17,7 @@ import (
 func init() {
 	vfRegister(&vfProp{
 		id:       "C12",
-		classes:  []string{"hist-os", "hist-rs", "hist-peer", "race", "race", "afterclose"},
+		classes:  []string{"hist-os", "hist-rs", "hist-peer", "race", "race", "afterclose", "hist-inmem"},
 		gen:      c12Gen,
 		exec:     c12Exec,
 		maxSteps: 200000,
@@ -40,6 +40,9 @@ func c12Gen(class string, seed uint64, tier string) *vfScenario {
 		sc.Cfg["alloc"] = int64(rng.IntN(2))
 	case "hist-rs":
 		sc.Cfg["kind"], sc.Cfg["hopt"] = 1, 1
+		sc.Cfg["alloc"] = int64(rng.IntN(2))
+	case "hist-inmem":
+		sc.Cfg["kind"] = 3 // the package's own in-memory backend (truncation that extends a file leaves a hole: zeros)
 		sc.Cfg["alloc"] = int64(rng.IntN(2))
 	default:
 		sc.Cfg["kind"] = 2
@@ -83,6 +86,9 @@ func c12Gen(class string, seed uint64, tier string) *vfScenario {
 		}
 	default:
 		sc.Ops = c01GenOps(rng, P, M, 1+rng.IntN(20), true)
+		if class == "hist-inmem" {
+			c01NoEmptyWrites(sc.Ops)
+		}
 		// invalid whence values and failing ReadFrom sources now and then
 		for i := range sc.Ops {
 			if (sc.Ops[i].K == "readfrom" || sc.Ops[i].K == "readfromc") && rng.IntN(4) == 0 {
@@ -174,6 +180,10 @@ func c12History(r *vfRun) {
 	}
 	env := &vfClientEnv{sim: sim, prop: "C12", c: v.c, files: map[int]*File{}, tag: sc.Seed}
 	ref := &refFile{data: append([]byte(nil), initial...)}
+	if v.kind == 3 && c01HasEmptyWrite(sc.Ops) {
+		r.res.Skipped = "invalid-program"
+		return
+	}
 	prog := append([]vfOp{{K: "open", P: v.name, H: 0, A: int64(os.O_RDWR)}}, sc.Ops...)
 	closeFault := 0
 	if v.peer != nil {
